@@ -226,6 +226,45 @@ func (w *World) method(pkg, typ, name string) *ssa.Function {
 	return nil
 }
 
+// pullOf: the Pull method of the concrete parser type that the exported constructor parser.<ctor> (or a helper it
+// returns through) hands out as a parser.Parser: found through the MakeInterface in its returns, never by type name.
+func (w *World) pullOf(ctor string) *ssa.Function {
+	fn := w.member("parser", ctor)
+	if fn == nil {
+		return nil
+	}
+	var out *ssa.Function
+	seen := map[*ssa.Function]bool{}
+	var visit func(g *ssa.Function)
+	visit = func(g *ssa.Function) {
+		if g == nil || seen[g] || out != nil {
+			return
+		}
+		seen[g] = true
+		allInstrs(g, func(in ssa.Instruction) {
+			ret, ok := in.(*ssa.Return)
+			if !ok || len(ret.Results) == 0 {
+				return
+			}
+			switch v := ret.Results[0].(type) {
+			case *ssa.MakeInterface:
+				ms := w.Prog.MethodSets.MethodSet(v.X.Type())
+				for i := 0; i < ms.Len(); i++ {
+					if ms.At(i).Obj().Name() == "Pull" {
+						out = w.Prog.MethodValue(ms.At(i))
+					}
+				}
+			case *ssa.Call:
+				if sc := staticCallee(v); sc != nil && fnPkgKey(sc) == "parser" {
+					visit(sc)
+				}
+			}
+		})
+	}
+	visit(fn)
+	return out
+}
+
 // ---------- generic SSA helpers ----------
 
 func allInstrs(fn *ssa.Function, f func(ssa.Instruction)) {
@@ -566,4 +605,78 @@ func isMethodCall(v ssa.Value, name string) (recv ssa.Value, ok bool) {
 		return cc.Args[0], true
 	}
 	return nil, false
+}
+
+// typeSwitchArms: for every block of fn, the set of type assertions one of which must have succeeded on every path
+// from the entry to the block ("the block belongs to the arm(s) of these assertions"). Unlike dominance this also
+// covers the body of a multi-type case (`case A, B:`), which is entered from the ok-edge of either assertion.
+// Forward must-analysis: the ok-edge of an assertion yields {that assertion}; other edges pass the set of their
+// source block on; a block's set is empty as soon as one incoming edge carries the empty set, else the union.
+func typeSwitchArms(fn *ssa.Function) map[*ssa.BasicBlock]map[*ssa.TypeAssert]bool {
+	type set = map[*ssa.TypeAssert]bool
+	const unknown = 0
+	state := map[*ssa.BasicBlock]int{} // 0 unknown (top), 1 known
+	val := map[*ssa.BasicBlock]set{}
+	okEdge := func(from *ssa.BasicBlock, succIdx int) *ssa.TypeAssert {
+		if len(from.Instrs) == 0 || succIdx != 0 {
+			return nil
+		}
+		ifi, ok := from.Instrs[len(from.Instrs)-1].(*ssa.If)
+		if !ok {
+			return nil
+		}
+		ex, ok := ifi.Cond.(*ssa.Extract)
+		if !ok || ex.Index != 1 {
+			return nil
+		}
+		ta, _ := ex.Tuple.(*ssa.TypeAssert)
+		return ta
+	}
+	if len(fn.Blocks) == 0 {
+		return val
+	}
+	state[fn.Blocks[0]] = 1
+	val[fn.Blocks[0]] = set{}
+	for changed := true; changed; {
+		changed = false
+		for _, b := range fn.Blocks[1:] {
+			empty := false
+			u := set{}
+			any := false
+			for _, p := range b.Preds {
+				for si, sc := range p.Succs {
+					if sc != b {
+						continue
+					}
+					if ta := okEdge(p, si); ta != nil {
+						u[ta] = true
+						any = true
+						continue
+					}
+					if state[p] == unknown {
+						continue
+					}
+					any = true
+					if len(val[p]) == 0 {
+						empty = true
+					}
+					for k := range val[p] {
+						u[k] = true
+					}
+				}
+			}
+			if !any {
+				continue
+			}
+			if empty {
+				u = set{}
+			}
+			if state[b] == unknown || len(u) != len(val[b]) {
+				state[b] = 1
+				val[b] = u
+				changed = true
+			}
+		}
+	}
+	return val
 }
